@@ -229,11 +229,13 @@ def gen_race(rng):
     durations and travel times from a tiny range, so that arrivals, completions and pickups fall into
     the same instant (stale pickups, time dependencies, simultaneous releases)."""
     nj = rng.randint(3, 4)
-    nm = rng.randint(1, 2)
+    nm = 2          # (a one-machine header line is rejected by the validator)
+    bottleneck = rng.random() < 0.5      # every job visits m-0 first: its post-buffer fills up
     routes = []
     for _ in range(nj):
         ms = list(range(nm))
-        rng.shuffle(ms)
+        if not bottleneck:
+            rng.shuffle(ms)
         if rng.random() < 0.3:
             ms = ms + [rng.randrange(nm)]
         routes.append([(mm, rng.randint(1, 4)) for mm in ms[:nm]])
